@@ -7,7 +7,7 @@ V = os.path.dirname(os.path.abspath(__file__))
 only = sys.argv[1] if len(sys.argv) > 1 else ""
 for mp in sorted(glob.glob(os.path.join(V, "seeded", "*", "meta.json"))):
     name = os.path.basename(os.path.dirname(mp))
-    if only and only not in name:
+    if only and not any(name.startswith(o) for o in only.split(",")):
         continue
     m = json.load(open(mp))
     m.setdefault("first_detected_by", m.get("detected_by", []))
